@@ -3,7 +3,8 @@
    what it observed on the object.
    codes: 1  model (W,H) <> implementation's obj.Width/Height
           2  oracle hypothesis: label / class / table content dimensions are >= 0
-          3  oracle hypothesis (oval): content + padding*cos / padding*sin (content angle) is >= -1/2
+          3  oracle hypothesis (oval): content + padding*cos / padding*sin (content angle) is >= -1/2, padding*cos >= -1
+          4  oracle hypothesis (auto-sized oval): cos*r, sin*r of the final ellipse are rx/sqrt2, ry/sqrt2 within 1e-5
          10  explicit width and height not honoured exactly
          11  square / circle with explicit sizes is not max x max
          12  table / class / code / text-with-language smaller than its content or than the explicit size
@@ -19,6 +20,7 @@ Open Scope Q_scope.
 Inductive case :=
 | Case (kd : kind) (label_empty lang : bool) (lw lh font tw th : Z) (dw dh : option Z) (icon linktip : bool)
        (oc oce os ose : Z)            (* oval: cos / sin of the content angle, dyadic *)
+       (cr cre sr sre : Z)            (* oval: cos*r, sin*r of the final ellipse (0 otherwise) *)
        (W We H He : Z)                (* obj.Width, obj.Height after SetDimensions *)
        (iw iwe ih ihe : Z)            (* inner box size of obj.ToShape() *)
        (LW LWe LH LHe : Z).           (* obj.Width, obj.Height after the real nested (dagre) layout, or = W, H *)
@@ -29,7 +31,7 @@ Definition absent (o : option Z) : bool := match o with None => true | Some _ =>
 
 Definition check_case (c : case) : list N :=
   match c with
-  | Case kd le lg lw lh font tw th dw dh ic lt oc oce os ose W We H He iw iwe ih ihe LW LWe LH LHe =>
+  | Case kd le lg lw lh font tw th dw dh ic lt oc oce os ose cr cre sr sre W We H He iw iwe ih ihe LW LWe LH LHe =>
       let i := {| k := kd; label_empty := le; lang := lg; lw := lw; lh := lh; font := font; tw := tw; th := th;
                   dw := dw; dh := dh; icon := ic; linktip := lt; oc := qf (oc, oce); os := qf (os, ose) |} in
       let W := qf (W, We) in let H := qf (H, He) in
@@ -45,7 +47,9 @@ Definition check_case (c : case) : list N :=
                close2 (size_to_content i (Qred (inject_Z (fst cnt) * a)) (Qred (inject_Z (snd cnt) * b))
                                          (Qred (fst pad * a)) (Qred (snd pad * b))) W H) variants in
       let hyp := (0 <=? lw)%Z && (0 <=? lh)%Z && (0 <=? tw)%Z && (0 <=? th)%Z in
-      let hyp_oval := match kd with KOval => H_pad_b (V.C21.Model.oc i) (V.C21.Model.os i) (inject_Z (fst cnt)) (inject_Z (snd cnt)) (fst pad) (snd pad) | _ => true end in
+      let oval_auto := match kd with KOval => absent dw && absent dh && negb le | _ => false end in
+      let hyp_oval := match kd with KOval => H_oval_b i | _ => true end in
+      let hyp_radius := if oval_auto then H_radius_b (qf (cr, cre)) (qf (sr, sre)) W H else true in
       let both := zset dw && zset dh in
       let a := inject_Z (zval dw) in let b := inject_Z (zval dh) in
       let is_image := match kd with KImage => true | _ => false end in
@@ -61,6 +65,6 @@ Definition check_case (c : case) : list N :=
       let c14 := if both && is_image
                  then Qeq_bool W (inject_Z (Z.max minShapeSize (zval dw))) && Qeq_bool H (inject_Z (Z.max minShapeSize (zval dh)))
                  else true in
-      flag corr 1 ++ flag hyp 2 ++ flag hyp_oval 3 ++ flag c10 10 ++ flag c11 11 ++ flag c12 12 ++ flag c13 13 ++ flag c14 14
+      flag corr 1 ++ flag hyp 2 ++ flag hyp_oval 3 ++ flag hyp_radius 4 ++ flag c10 10 ++ flag c11 11 ++ flag c12 12 ++ flag c13 13 ++ flag c14 14
       ++ flag (Qeq_bool (qf (LW, LWe)) W && Qeq_bool (qf (LH, LHe)) H) 15
   end.
